@@ -50,4 +50,21 @@ def verify (O : Query → m Bytes) (p : Proof) (y base : Bytes) (tr : Transcript
   let rhs ← O (.ecAdd .secp256k1 p.t yc)
   pure (lhs == rhs)
 
+/-- `prove` also ADVANCES the caller's transcript (it is passed as `&mut Transcript`): the state a following proof starts from -/
+def proveAdv (O : Query → m Bytes) (x : Nat) (base : Bytes) (tr : Transcript) (tape : Tape) : m (Proof × Bytes × Tape × Transcript) := do
+  let (r, tape) := Tape.scalarRandom 64 tape
+  let t ← O (.ecMul .secp256k1 base r)
+  let y ← O (.ecMul .secp256k1 base x)
+  let (c, tr') ← fiatShamir O y t base tr
+  let s := (r + c * x) % secpQ
+  pure ({ t, s }, y, tape, tr')
+
+/-- `verify` advances the verifier's transcript in the same way -/
+def verifyAdv (O : Query → m Bytes) (p : Proof) (y base : Bytes) (tr : Transcript) : m (Bool × Transcript) := do
+  let (c, tr') ← fiatShamir O y p.t base tr
+  let lhs ← O (.ecMul .secp256k1 base p.s)
+  let yc ← O (.ecMul .secp256k1 y c)
+  let rhs ← O (.ecAdd .secp256k1 p.t yc)
+  pure (lhs == rhs, tr')
+
 end SlVerif.Dlog
